@@ -639,4 +639,33 @@ def serveFrameTokens (tokenLarge slabLarge : Nat → Bool) (cap t : Tokens) (len
 length prefix is read, so its deadline is that instant + QueryTimeout -/
 def frameDeadline (prefixRead qto : Nat) : Nat := prefixRead + qto
 
+/-! ## 14. tcpEngine.acceptLoop -/
+
+/-- what `ln.Accept()` returned -/
+inductive AcceptRes
+  | conn                 -- a connection
+  | closed               -- net.ErrClosed: the listener was shut down
+  | err (timeout temporary : Bool)   -- any other error, with its net.Error classification
+deriving DecidableEq, Repr
+
+/-- the loop keeps accepting (`true`) unless the listener was closed: a
+timeout is retried at once, every other error after a short pause -/
+def acceptLoopContinues : AcceptRes → Bool
+  | .closed => false
+  | _ => true
+
+/-- connections admitted out of a sequence of Accept results (the loop stops at `closed`) -/
+def acceptLoop : List AcceptRes → Nat
+  | [] => 0
+  | r :: rest =>
+    if acceptLoopContinues r then (match r with | .conn => 1 | _ => 0) + acceptLoop rest else 0
+
+/-! ## 15. root priming: the root set's lock -/
+
+/-- `checkPriming`'s tail: the write lock on the root set is taken only
+around the swap, and only when the priming answer yields at least as many
+addresses as the configured list; result = (swapped, lock still held) -/
+def primingTail (found configured : Nat) : Bool × Bool :=
+  if found ≥ configured then (true, false) else (false, false)
+
 end SdnsVerif.Model.OneReply
